@@ -433,3 +433,24 @@ macro_rules! recv_harness {
 recv_harness!(c09_recv_from_hands_on_requests, 0);
 recv_harness!(c09_recv_from_gates_responses_by_tid_and_source_address, 1);
 recv_harness!(c09_recv_from_gates_error_messages_by_tid_and_source_address, 2);
+
+// ---------------------------------------------------------------------------------------------
+// C06/C05: the RTT estimator never panics and the request timeout stays finite and >= 500 ms,
+// whatever sample arrives (late replies included) — floating-point arithmetic, bounded ranges
+// ---------------------------------------------------------------------------------------------
+#[kani::proof]
+fn c06_rtt_update_never_panics_and_keeps_a_finite_timeout() {
+    let mut t = InflightRequests::new();
+    let est_ms: u16 = kani::any();
+    let dev_ms: u16 = kani::any();
+    let sample_ms: u32 = kani::any();
+    kani::assume(est_ms >= 500 && sample_ms <= 3_600_000);
+    t.estimated_rtt = Duration::from_millis(est_ms as u64);
+    t.deviation_rtt = Duration::from_millis(dev_ms as u64);
+    t.update_rtt_estimates(Duration::from_millis(sample_ms as u64));
+    let timeout = t.request_timeout();
+    assert!(timeout >= Duration::from_millis(499), "C06: the request timeout never drops below (about) 500 ms");
+    assert!(timeout <= Duration::from_secs(5 * 3600), "C06: ... and stays finite: every request stops being in flight eventually");
+    kani::cover!(sample_ms < est_ms as u32 && sample_ms >= 500, "a sample below the current estimate");
+    kani::cover!(sample_ms > 600_000, "a very late reply");
+}
